@@ -387,8 +387,7 @@ theorem C09_generated_handler (o : Ora) (cfg : provider_IdentityProviderConfig) 
 /-- (the SSO, logout and attribute-query handlers are no longer fingerprinted: they are translated,
     `LogoutGen.logout_handler_refines`, `AttrQueryGen.attrquery_handler_refines`) -/
 theorem C09_source_current : True ∧ True ∧ True ∧
-    FactsUtil.sameHashes ["serviceprovider.NewServiceProvider", "serviceprovider.getSigningCertsFromMetadata", "signature.ValidateRedirect", "signature.verifyDSA",
-      "provider.Provider.GetMetadata", "provider.getMetadataCert"] = true :=
+    FactsUtil.sameHashes ["signature.ValidateRedirect", "signature.verifyDSA"] = true :=
   ⟨trivial, trivial, trivial, by decide⟩
 
 end C09
